@@ -374,6 +374,45 @@ def run(ctx):
                 ctx.violation("halt-check-arg|%s" % arm, sp_file_line(disp.term(g).get("sp")), "`%s` checks HALT on `%s`, not on the word at the current PC" % (arm, e[:120]))
     ctx.finish_rule()
 
+    # ------------------------------------------------------------------ R6
+    ctx.rule("C10.R6", "each resuming command installs exactly its own stepping state", floor=4)
+    WANT = {"Continue": "Continue", "StepOver": "StepOver", "StepInto": "StepInto", "StepOut": "Finish"}
+    for arm, want in sorted(WANT.items()):
+        ctx.need(arm in arms, "`%s` arm of the dispatcher" % arm)
+        region = dbg.arm_region(disp, arms[arm])
+        writes = []
+        for b, i, s_ in disp.assigns():
+            if b in region and [e.get("n") for e in s_["p"].get("pr", []) if isinstance(e, dict) and "f" in e][-1:] == ["status"]:
+                e = disp.rvalue_expr(s_["r"], 4)
+                if e[0] == "agg" and e[1][0] == "adt":
+                    writes.append((b, e[1][2], s_.get("sp")))
+                    continue
+                # a value chosen earlier (`let st = if .. {A} else {B}; self.status = st`): every variant it may hold
+                src = op_local(s_["r"].get("a", {})) if s_["r"]["k"] == "use" else None
+                vs = sorted({s2["r"].get("variant") for b2, i2, s2 in disp.assigns()
+                             if src is not None and place_is_local(s2["p"]) and s2["p"]["l"] == src and s2["r"]["k"] == "agg" and s2["r"].get("adt") == STATUS})
+                for v in vs or [expr_str(e, 40)]:
+                    writes.append((b, v, s_.get("sp")))
+        ctx.instance(1)
+        wrong = [w for w in writes if w[1] != want]
+        # every path on which the HALT pre-check passed reaches the assignment
+        sm = disp.succ_map()
+        leaving = {b for b in region if any(x not in region for x in sm[b])}
+        wb_ = {w[0] for w in writes if w[1] == want}
+        skipped = set()
+        for g in [b for b, t, c in disp.calls() if b in region and c and c.endswith("Debugger::check_halt")]:
+            okt = kit.ok_target_of_call(disp, g)
+            if okt is not None:
+                skipped |= (disp.reachable(okt, avoid=wb_) & leaving) - wb_
+        ok = bool(writes) and not wrong and not skipped
+        ctx.oblig(ok, {"arm": arm, "status :=": sorted({w[1] for w in writes})}, "only Status::%s, on every path past the HALT pre-check" % want)
+        if not ok:
+            ctx.violation("arm-state|%s" % arm, sp_file_line((wrong[0][2] if wrong else None) or disp.term(arms[arm]).get("sp")),
+                          "`%s` must put the debugger into Status::%s on every path that passes the HALT pre-check; it assigns %s%s: the command then "
+                          "executes something other than what it promises for some instructions"
+                          % (arm, want, sorted({w[1] for w in writes}) or "nothing", " and has a path that assigns nothing" if skipped else ""))
+    ctx.finish_rule()
+
 
 def clamps_to_one(ctx, f):
     """does reader function f return Result::map(reader(.., Ok(d)), |v| max(v, m)) with d >= 1 and m >= 1 ?"""
